@@ -106,7 +106,11 @@ class Trajectory(PymatgenTrajectory):
         See [GEMDAT#103](https://github.com/GEMDAT-repos/GEMDAT/issues/103)
         """
         super().to_positions()
-        self.coords = np.mod(self.coords, 1)
+        coords = np.mod(self.coords, 1)
+        # np.mod rounds tiny negative values (e.g. -1e-17) up to exactly 1.0,
+        # which lies outside the half-open unit cell
+        coords[coords >= 1] = 0
+        self.coords = coords
 
     def to_volume(self, resolution: float = 0.2) -> Volume:
         """Calculate density volume from a trajectory.
